@@ -267,6 +267,8 @@ def step (toks : List String) : String :=
   | ["bmp.at", i, x, y] => ((parseImage i).binaryAt x.toInt! y.toInt!).render toString
   | ["bmp.set", i, x, y, c] => ((parseImage i).setBinary x.toInt! y.toInt! (c == "1")).render Bitmap.Image.render
   | ["bmp.xor", i, x, y, c] => ((parseImage i).xorBinary x.toInt! y.toInt! (c == "1")).render Bitmap.Image.render
+  | ["bmp.clone", i] => "ok " ++ (parseImage i).render
+  | ["bmp.new", a, b, c, d] => "ok " ++ (Bitmap.Image.new a.toInt! b.toInt! c.toInt! d.toInt!).render
   | ["bmp.ones", i] => ((parseImage i).onesCount).render showNat
   | ["bmp.point", i] =>
     let im := parseImage i
